@@ -3,7 +3,7 @@ import ast
 import z3
 
 from . import theory as T
-from . import types as TY
+from . import tys as TY
 from .sv import (SV, NONE, Frame, OutOfSubset, BreakEx, ContinueEx, PathEnd, StaleContract, mk_int, mk_bool, mk_real)
 from .interp import as_int_term, as_real_term, const_int, is_num
 
